@@ -4,7 +4,7 @@ from refinterp import *
 from astgen import AstGen
 FIELDS = ('out', 'warnkinds', 'vars', 'cls', 'cfgAfter')
 RULE = 'programs mixing REM, Flipper-only, unknown and ordinary commands at any nesting x all 16 boolean option combinations x stack limits x {no project file, project files over the same fields} x both API entry points; distinct (program, options, entry point)'
-W = dict(emit=4, assign=1.5, ifchain=2.5, repeat=1.5, whil=0.8, brk=0.5, func=1.2, call=2, ret=0.1, prnt=0.1, exist=0.1)
+W = dict(emit=4, assign=1.5, ifchain=2.5, repeat=1.5, whil=0.8, brk=0.5, func=1.2, call=2, ret=0.1, prnt=0.1, exist=0.1, rawkw=0)      # (the unknown lines of these programs are tracked one by one)
 FLIPPER = ['ALTCHAR 65', 'ALTSTRING hi', 'ALTCODE x', 'SYSRQ k', 'CTRL-ALT t', 'GUI-SHIFT']
 UNKNOWN = ['HOLD a', 'RELEASE', 'WAIT_FOR_BUTTON_PRESS', 'LED_G']
 OPTKEYS = ['include_comments', 'flipper_commands', 'supress_command_not_exist', 'use_project_config']
